@@ -518,6 +518,8 @@ class Interp:
             self.bad(e, f'subscript of {type(base).__name__}')
         if isinstance(e, ast.Attribute):
             base = self.eval(e.value, env)
+            if isinstance(base, tuple) and base and base[0] == 'module':
+                return ('hostattr', f'{base[1]}.{e.attr}')
             if isinstance(base, Sym):
                 if base.kind == 'exc' and len(base.args) > 1:
                     a = base.args[1]
